@@ -91,6 +91,25 @@
         }
     }
 
+    /// C18: under LRU a looked-up entry is no victim while the lookup's handle is held, however many other handles exist
+    fn pinned_by_lookup(found: &mut Vec<String>) {
+        for other_handles in 0..3usize {
+            let cache: RawCache<Lru<u64, u64, TestProperties>, ModHasher, HashTableIndexer<Lru<u64, u64, TestProperties>>> = RawCache::new(RawCacheConfig {
+                capacity: 4, shards: 1, eviction_config: LruConfig::default(), hash_builder: Default::default(),
+                weighter: Arc::new(|_, _| 1), filter: Arc::new(|_, _| true), event_listener: None, metrics: Arc::new(Metrics::noop()),
+            });
+            let inserted = cache.insert(0, 0);
+            let mut others = vec![];
+            if other_handles == 0 { drop(inserted); } else { for _ in 1..other_handles { others.push(inserted.clone()); } others.push(inserted); }
+            let looked_up = cache.get(&0).unwrap();
+            for i in 1..=8u64 { cache.insert(i, i); }
+            if looked_up.is_outdated() || cache.get(&0).is_none() {
+                found.push(format!("WITNESS every_lookup_hit_acquires_the_record_once :: lru cap=4: insert(0) keeping {other_handles} handle(s); get(0) held; insert(1..=8) => the looked-up entry was evicted (is_outdated={})", looked_up.is_outdated()));
+                return;
+            }
+        }
+    }
+
     #[test]
     fn verif_witness_shard() {
         let seed: u64 = std::env::var("VERIF_SEED").ok().and_then(|s| s.parse().ok()).unwrap_or(0);
@@ -100,6 +119,7 @@
             let mut f = vec![];
             run::<Fifo<u64, u64, TestProperties>>("fifo", FifoConfig::default(), seed.wrapping_add(1), &mut f);
             if f.is_empty() { run::<Lru<u64, u64, TestProperties>>("lru", LruConfig::default(), seed.wrapping_add(2), &mut f); }
+            if f.is_empty() { pinned_by_lookup(&mut f); }
             f
         });
         match r {
